@@ -2,7 +2,8 @@
   Translator phase 4h (app mode): index / loop arithmetic of src/app/lwe.rs regenerated into Gen/AppFns.lean (fragments of
   `extract_lwe`, `pack_lwe_ciphertexts`, `field_trace_inplace`) = the corresponding pieces of Model/Lwe.lean.  Helper prefix `ga_`.
 -/
-import Heathcliff.Proofs.GenAppConv
+import Heathcliff.Proofs.GenAppBase
+import Heathcliff.Gen.AppLweFns
 import Heathcliff.Model.Lwe
 
 namespace HC
@@ -43,9 +44,10 @@ theorem ga_lwe_pack_log_loop (c : Nat) (hc : c ≤ 2^63) : ∀ (f2 l f1 : Nat), 
     obtain ⟨f, rfl⟩ : ∃ f, f1 = f + 1 := ⟨f1 - 1, by omega⟩
     by_cases hlt : 2^l < c
     · have hl' : l < 63 := by
-        by_contra hge
-        have : l = 63 := by omega
-        subst this; omega
+        rcases Nat.lt_or_ge l 63 with h1 | h1
+        · exact h1
+        · have : l = 63 := by omega
+          subst this; omega
       have hb : lwe_pack_log_loop1 c l = .ok (.next (l + 1)) := by
         simp only [lwe_pack_log_loop1, ga_ckShl_one hl, ga_ok_bind, if_pos hlt, ga_ckAdd (show l + 1 < 2^64 by omega)]
         rfl
